@@ -1,7 +1,860 @@
 package main
 
-// Replay of refuting models against the real code (drivers are added per property).
+// Replay of a refuting model against the real code.
+//
+// Supported class: the function under contract is a package-level function whose parameters are all "simple"
+// (integers, bools, strings, []byte, [N]byte, structs of those), and the refuted obligation is either a panic-freedom
+// obligation (oracle: the call panics) or an ensures/returns clause that can be translated to Go over the parameters
+// and results (oracle: the translated clause is false after the call). The model's parameter values are read back from
+// the deciding solver with (get-value), a test is generated and injected with `go test -overlay` (nothing is written
+// to /repo), and the violation counts as replayed only when the real code shows the failure.
 
-func (g *Gen) tryReplay(o *Obligation, pid string, rep map[string]any) (bool, string) {
-	return false, "no replay driver for this obligation kind; the model is over the generator's symbolic values"
+import (
+	"bytes"
+	"context"
+	"encoding/json"
+	"fmt"
+	"go/types"
+	"os"
+	"os/exec"
+	"path/filepath"
+	"strconv"
+	"strings"
+	"time"
+
+	"golang.org/x/tools/go/ssa"
+)
+
+type replayParam struct {
+	Name string
+	V    Val
+	Ty   types.Type
 }
+
+func isSimpleType(t types.Type, depth int) bool {
+	if depth > 3 {
+		return false
+	}
+	switch u := types.Unalias(t).Underlying().(type) {
+	case *types.Basic:
+		return u.Info()&(types.IsInteger|types.IsBoolean|types.IsString) != 0
+	case *types.Slice:
+		return isByte(u.Elem())
+	case *types.Array:
+		return isByte(u.Elem())
+	case *types.Struct:
+		for i := 0; i < u.NumFields(); i++ {
+			if !isSimpleType(u.Field(i).Type(), depth+1) {
+				return false
+			}
+		}
+		return true
+	}
+	return false
+}
+
+// ---- reading values back from the solver
+
+type sexp struct {
+	atom string
+	list []*sexp
+}
+
+func parseSexps(s string) []*sexp {
+	var stack [][]*sexp
+	cur := []*sexp{}
+	i := 0
+	for i < len(s) {
+		c := s[i]
+		switch {
+		case c == '(':
+			stack = append(stack, cur)
+			cur = []*sexp{}
+			i++
+		case c == ')':
+			if len(stack) == 0 {
+				return cur
+			}
+			n := &sexp{list: cur}
+			cur = append(stack[len(stack)-1], n)
+			stack = stack[:len(stack)-1]
+			i++
+		case c == ' ' || c == '\n' || c == '\t' || c == '\r':
+			i++
+		case c == '"':
+			j := i + 1
+			for j < len(s) && s[j] != '"' {
+				j++
+			}
+			cur = append(cur, &sexp{atom: s[i:min(j+1, len(s))]})
+			i = j + 1
+		default:
+			j := i
+			for j < len(s) && !strings.ContainsRune("() \n\t\r", rune(s[j])) {
+				j++
+			}
+			cur = append(cur, &sexp{atom: s[i:j]})
+			i = j
+		}
+	}
+	return cur
+}
+
+func sexpInt(e *sexp) (int64, bool) {
+	if e == nil {
+		return 0, false
+	}
+	if e.atom != "" {
+		if e.atom == "true" {
+			return 1, true
+		}
+		if e.atom == "false" {
+			return 0, true
+		}
+		if strings.HasPrefix(e.atom, "#x") {
+			n, err := strconv.ParseUint(e.atom[2:], 16, 64)
+			return int64(n), err == nil
+		}
+		n, err := strconv.ParseInt(e.atom, 10, 64)
+		if err != nil {
+			// out of int64 range: not replayable with machine integers
+			return 0, false
+		}
+		return n, true
+	}
+	if len(e.list) == 2 && e.list[0].atom == "-" {
+		n, ok := sexpInt(e.list[1])
+		return -n, ok
+	}
+	return 0, false
+}
+
+// getValues asks the deciding solver for the values of terms in the refuting model.
+func getValues(file, solver string, terms []string) ([]int64, bool) {
+	if len(terms) == 0 {
+		return nil, true
+	}
+	data, err := os.ReadFile(file)
+	if err != nil {
+		return nil, false
+	}
+	vf := file + ".values.smt2"
+	q := append([]byte{}, data...)
+	q = append(q, []byte("(get-value ("+strings.Join(terms, " ")+"))\n")...)
+	if err := os.WriteFile(vf, q, 0o644); err != nil {
+		return nil, false
+	}
+	defer os.Remove(vf)
+	var out string
+	for _, sp := range solvers {
+		if sp.name == solver {
+			r := runOne(context.Background(), sp, vf, 20)
+			out = r.out
+		}
+	}
+	i := strings.Index(out, "sat")
+	if i < 0 || strings.HasPrefix(strings.TrimSpace(out), "unsat") {
+		return nil, false
+	}
+	rest := out[i+3:]
+	es := parseSexps(rest)
+	if len(es) == 0 || len(es[0].list) != len(terms) {
+		return nil, false
+	}
+	vals := make([]int64, len(terms))
+	for k, pair := range es[0].list {
+		if len(pair.list) != 2 {
+			return nil, false
+		}
+		v, ok := sexpInt(pair.list[1])
+		if !ok {
+			return nil, false
+		}
+		vals[k] = v
+	}
+	return vals, true
+}
+
+// goLiteral builds the Go literal of a simple-typed parameter from the model.
+func (g *Gen) goLiteral(file, solver string, v Val, t types.Type, qual func(*types.Package) string) (string, bool) {
+	ts := types.TypeString(t, qual)
+	switch u := types.Unalias(t).Underlying().(type) {
+	case *types.Basic:
+		vals, ok := getValues(file, solver, []string{v.T})
+		if !ok {
+			if u.Info()&types.IsString == 0 {
+				return "", false
+			}
+		}
+		switch {
+		case u.Info()&types.IsBoolean != 0:
+			return fmt.Sprintf("%s(%v)", ts, vals[0] != 0), true
+		case u.Info()&types.IsInteger != 0:
+			return fmt.Sprintf("%s(%d)", ts, vals[0]), true
+		case u.Info()&types.IsString != 0:
+			b, ok := g.modelBytes(file, solver, v.T)
+			if !ok {
+				return "", false
+			}
+			return fmt.Sprintf("%s(%q)", ts, string(b)), true
+		}
+	case *types.Slice:
+		b, ok := g.modelBytes(file, solver, v.T)
+		if !ok {
+			return "", false
+		}
+		return fmt.Sprintf("%s(%s)", ts, byteSliceLit(b)), true
+	case *types.Array:
+		b, ok := g.modelBytes(file, solver, v.T)
+		if !ok || int64(len(b)) != u.Len() {
+			return "", false
+		}
+		var parts []string
+		for _, x := range b {
+			parts = append(parts, strconv.Itoa(int(x)))
+		}
+		return fmt.Sprintf("%s{%s}", ts, strings.Join(parts, ", ")), true
+	case *types.Struct:
+		key := g.structKey(t)
+		var parts []string
+		for i := 0; i < u.NumFields(); i++ {
+			f := u.Field(i)
+			fv := Val{T: fmt.Sprintf("(%s %s)", g.fieldSel(key, f.Name(), i), v.T), S: g.sortOf(f.Type()), Ty: f.Type()}
+			lit, ok := g.goLiteral(file, solver, fv, f.Type(), qual)
+			if !ok {
+				return "", false
+			}
+			parts = append(parts, f.Name()+": "+lit)
+		}
+		return fmt.Sprintf("%s{%s}", ts, strings.Join(parts, ", ")), true
+	}
+	return "", false
+}
+
+func byteSliceLit(b []byte) string {
+	var parts []string
+	for _, x := range b {
+		parts = append(parts, strconv.Itoa(int(x)))
+	}
+	return "[]byte{" + strings.Join(parts, ", ") + "}"
+}
+
+func (g *Gen) modelBytes(file, solver, term string) ([]byte, bool) {
+	ls, ok := getValues(file, solver, []string{fmt.Sprintf("(slen %s)", term)})
+	if !ok || ls[0] < 0 || ls[0] > 4096 {
+		return nil, false
+	}
+	n := int(ls[0])
+	var terms []string
+	for i := 0; i < n; i++ {
+		terms = append(terms, fmt.Sprintf("(at %s %d)", term, i))
+	}
+	vs, ok := getValues(file, solver, terms)
+	if !ok {
+		return nil, false
+	}
+	b := make([]byte, n)
+	for i, v := range vs {
+		if v < 0 || v > 255 {
+			return nil, false
+		}
+		b[i] = byte(v)
+	}
+	return b, true
+}
+
+// ---- clause → Go
+
+type goTr struct {
+	g      *Gen
+	sig    *types.Signature
+	params map[string]types.Type
+	pkg    *types.Package
+	vars   map[string]trVal // bound by pure-function inlining
+	depth  int
+}
+
+type trVal struct {
+	code string
+	kind string // int, bool, bytes, err, other
+	ty   types.Type
+}
+
+func kindOfType(t types.Type) string {
+	switch u := types.Unalias(t).Underlying().(type) {
+	case *types.Basic:
+		switch {
+		case u.Info()&types.IsBoolean != 0:
+			return "bool"
+		case u.Info()&types.IsInteger != 0:
+			return "int"
+		case u.Info()&types.IsString != 0:
+			return "bytes"
+		}
+	case *types.Slice:
+		if isByte(u.Elem()) {
+			return "bytes"
+		}
+	case *types.Array:
+		if isByte(u.Elem()) {
+			return "bytes"
+		}
+	case *types.Interface:
+		return "err"
+	case *types.Pointer:
+		return "ptr"
+	}
+	return "other"
+}
+
+func (t *goTr) leaf(code string, ty types.Type) trVal {
+	switch kindOfType(ty) {
+	case "int":
+		return trVal{"int64(" + code + ")", "int", ty}
+	case "bool":
+		return trVal{code, "bool", ty}
+	case "bytes":
+		if _, isArr := types.Unalias(ty).Underlying().(*types.Array); isArr {
+			return trVal{"govcArr(" + code + "[:])", "bytes", ty}
+		}
+		return trVal{"[]byte(" + code + ")", "bytes", ty}
+	case "err":
+		return trVal{code, "err", ty}
+	case "ptr":
+		return trVal{code, "ptr", ty}
+	}
+	return trVal{code, "other", ty}
+}
+
+func (t *goTr) tr(e *CExpr) (trVal, error) {
+	t.depth++
+	defer func() { t.depth-- }()
+	if t.depth > 60 {
+		return trVal{}, fmt.Errorf("too deep")
+	}
+	switch e.Op {
+	case "int":
+		return trVal{"int64(" + e.Name + ")", "int", nil}, nil
+	case "bool":
+		return trVal{e.Name, "bool", nil}, nil
+	case "str":
+		return trVal{fmt.Sprintf("[]byte(%q)", e.Name), "bytes", nil}, nil
+	case "char":
+		return trVal{"int64('" + e.Name + "')", "int", nil}, nil
+	case "old":
+		return t.tr(e.Args[0]) // parameters are passed by value: their entry values are what the test passes
+	case "id":
+		if v, ok := t.vars[e.Name]; ok {
+			return v, nil
+		}
+		if e.Name == "nil" {
+			return trVal{"nil", "nil", nil}, nil
+		}
+		if ty, ok := t.params[e.Name]; ok {
+			return t.leaf("p_"+e.Name, ty), nil
+		}
+		res := t.sig.Results()
+		if e.Name == "ret" && res.Len() == 1 {
+			return t.leaf("r0", res.At(0).Type()), nil
+		}
+		if strings.HasPrefix(e.Name, "ret") {
+			if k, err := strconv.Atoi(e.Name[3:]); err == nil && k < res.Len() {
+				return t.leaf(fmt.Sprintf("r%d", k), res.At(k).Type()), nil
+			}
+		}
+		for k := 0; k < res.Len(); k++ {
+			if res.At(k).Name() == e.Name && e.Name != "" {
+				return t.leaf(fmt.Sprintf("r%d", k), res.At(k).Type()), nil
+			}
+		}
+		if pf, ok := t.g.cs.Pures[e.Name]; ok && len(pf.Params) == 0 && pf.Body != nil {
+			return t.tr(pf.Body)
+		}
+		return trVal{}, fmt.Errorf("identifier %s is not a parameter or result", e.Name)
+	case "sel":
+		x, err := t.tr(e.Args[0])
+		if err != nil {
+			return trVal{}, err
+		}
+		if x.ty == nil {
+			return trVal{}, fmt.Errorf("selector on untyped value")
+		}
+		bt := x.ty
+		if p, ok := types.Unalias(bt).Underlying().(*types.Pointer); ok {
+			bt = p.Elem()
+		}
+		obj, _, _ := types.LookupFieldOrMethod(bt, true, t.pkg, e.Name)
+		f, ok := obj.(*types.Var)
+		if !ok {
+			return trVal{}, fmt.Errorf("no field %s", e.Name)
+		}
+		return t.leaf(x.code+"."+e.Name, f.Type()), nil
+	case "idx":
+		a, err := t.tr(e.Args[0])
+		if err != nil {
+			return trVal{}, err
+		}
+		i, err := t.tr(e.Args[1])
+		if err != nil {
+			return trVal{}, err
+		}
+		if a.kind != "bytes" || i.kind != "int" {
+			return trVal{}, fmt.Errorf("indexing unsupported here")
+		}
+		return trVal{fmt.Sprintf("govcAt(%s, %s)", a.code, i.code), "int", nil}, nil
+	case "slice":
+		a, err := t.tr(e.Args[0])
+		if err != nil || a.kind != "bytes" {
+			return trVal{}, fmt.Errorf("slicing unsupported here")
+		}
+		lo, hi := "int64(0)", "int64(-1)"
+		if e.Args[1] != nil {
+			v, err := t.tr(e.Args[1])
+			if err != nil {
+				return trVal{}, err
+			}
+			lo = v.code
+		}
+		if e.Args[2] != nil {
+			v, err := t.tr(e.Args[2])
+			if err != nil {
+				return trVal{}, err
+			}
+			hi = v.code
+		}
+		return trVal{fmt.Sprintf("govcSub(%s, %s, %s)", a.code, lo, hi), "bytes", nil}, nil
+	case "un":
+		x, err := t.tr(e.Args[0])
+		if err != nil {
+			return trVal{}, err
+		}
+		switch e.Name {
+		case "!":
+			return trVal{"!(" + x.code + ")", "bool", nil}, nil
+		case "-":
+			return trVal{"-(" + x.code + ")", "int", nil}, nil
+		case "*":
+			if x.kind == "ptr" {
+				pt := types.Unalias(x.ty).Underlying().(*types.Pointer)
+				return t.leaf("(*"+x.code+")", pt.Elem()), nil
+			}
+		}
+		return trVal{}, fmt.Errorf("unary %s unsupported", e.Name)
+	case "bin":
+		op := e.Name
+		a, err := t.tr(e.Args[0])
+		if err != nil {
+			return trVal{}, err
+		}
+		b, err := t.tr(e.Args[1])
+		if err != nil {
+			return trVal{}, err
+		}
+		switch op {
+		case "==>":
+			return trVal{fmt.Sprintf("(!(%s) || (%s))", a.code, b.code), "bool", nil}, nil
+		case "<==>":
+			return trVal{fmt.Sprintf("((%s) == (%s))", a.code, b.code), "bool", nil}, nil
+		case "&&", "||":
+			return trVal{fmt.Sprintf("((%s) %s (%s))", a.code, op, b.code), "bool", nil}, nil
+		case "==", "!=":
+			var c string
+			switch {
+			case a.kind == "nil" || b.kind == "nil":
+				x := a
+				if a.kind == "nil" {
+					x = b
+				}
+				if x.kind == "bytes" {
+					return trVal{}, fmt.Errorf("nil-ness of byte strings is not modelled")
+				}
+				c = fmt.Sprintf("(%s == nil)", x.code)
+			case a.kind == "bytes" && b.kind == "bytes":
+				c = fmt.Sprintf("bytes.Equal(%s, %s)", a.code, b.code)
+			case a.kind == b.kind && (a.kind == "int" || a.kind == "bool"):
+				c = fmt.Sprintf("(%s == %s)", a.code, b.code)
+			case a.kind == "other" && b.kind == "other":
+				c = fmt.Sprintf("(%s == %s)", a.code, b.code)
+			default:
+				return trVal{}, fmt.Errorf("comparison of %s and %s", a.kind, b.kind)
+			}
+			if op == "!=" {
+				c = "!" + c
+			}
+			return trVal{c, "bool", nil}, nil
+		case "<", "<=", ">", ">=":
+			if a.kind != "int" || b.kind != "int" {
+				return trVal{}, fmt.Errorf("ordering on non-integers")
+			}
+			return trVal{fmt.Sprintf("(%s %s %s)", a.code, op, b.code), "bool", nil}, nil
+		case "+":
+			if a.kind == "bytes" && b.kind == "bytes" {
+				return trVal{fmt.Sprintf("govcCat(%s, %s)", a.code, b.code), "bytes", nil}, nil
+			}
+			fallthrough
+		case "-", "*":
+			if a.kind != "int" || b.kind != "int" {
+				return trVal{}, fmt.Errorf("arithmetic on non-integers")
+			}
+			return trVal{fmt.Sprintf("(%s %s %s)", a.code, op, b.code), "int", nil}, nil
+		case "/", "%":
+			if a.kind != "int" || b.kind != "int" {
+				return trVal{}, fmt.Errorf("arithmetic on non-integers")
+			}
+			fn := "govcDiv"
+			if op == "%" {
+				fn = "govcMod"
+			}
+			return trVal{fmt.Sprintf("%s(%s, %s)", fn, a.code, b.code), "int", nil}, nil
+		}
+		return trVal{}, fmt.Errorf("operator %s unsupported", op)
+	case "call":
+		var args []trVal
+		ev := func() error {
+			for _, a := range e.Args {
+				v, err := t.tr(a)
+				if err != nil {
+					return err
+				}
+				args = append(args, v)
+			}
+			return nil
+		}
+		switch e.Name {
+		case "len":
+			if err := ev(); err != nil {
+				return trVal{}, err
+			}
+			if len(args) == 1 && args[0].kind == "bytes" {
+				return trVal{"int64(len(" + args[0].code + "))", "int", nil}, nil
+			}
+			return trVal{}, fmt.Errorf("len of non-bytes")
+		case "bytes", "string":
+			if err := ev(); err != nil {
+				return trVal{}, err
+			}
+			if len(args) == 1 && args[0].kind == "bytes" {
+				return args[0], nil
+			}
+		case "byte1":
+			if err := ev(); err != nil {
+				return trVal{}, err
+			}
+			if len(args) == 1 && args[0].kind == "int" {
+				return trVal{"[]byte{byte(govcMod(" + args[0].code + ", 256))}", "bytes", nil}, nil
+			}
+		case "zeros":
+			if err := ev(); err != nil {
+				return trVal{}, err
+			}
+			if len(args) == 1 && args[0].kind == "int" {
+				return trVal{"make([]byte, " + args[0].code + ")", "bytes", nil}, nil
+			}
+		case "supd":
+			if err := ev(); err != nil {
+				return trVal{}, err
+			}
+			if len(args) == 3 {
+				return trVal{fmt.Sprintf("govcUpd(%s, %s, %s)", args[0].code, args[1].code, args[2].code), "bytes", nil}, nil
+			}
+		case "ite":
+			if err := ev(); err != nil {
+				return trVal{}, err
+			}
+			if len(args) == 3 && args[0].kind == "bool" && args[1].kind == args[2].kind {
+				return trVal{fmt.Sprintf("govcIte(%s, %s, %s)", args[0].code, args[1].code, args[2].code), args[1].kind, nil}, nil
+			}
+		case "min", "max":
+			if err := ev(); err != nil {
+				return trVal{}, err
+			}
+			if len(args) == 2 && args[0].kind == "int" && args[1].kind == "int" {
+				return trVal{fmt.Sprintf("%s(%s, %s)", e.Name, args[0].code, args[1].code), "int", nil}, nil
+			}
+		}
+		if pf, ok := t.g.cs.Pures[e.Name]; ok && pf.Body != nil && len(pf.Params) == len(e.Args) {
+			if err := ev(); err != nil {
+				return trVal{}, err
+			}
+			saved := t.vars
+			nv := map[string]trVal{}
+			for k, v := range saved {
+				nv[k] = v
+			}
+			for i, p := range pf.Params {
+				nv[p] = args[i]
+			}
+			t.vars = nv
+			r, err := t.tr(pf.Body)
+			t.vars = saved
+			return r, err
+		}
+		return trVal{}, fmt.Errorf("specification function %s has no executable definition", e.Name)
+	}
+	return trVal{}, fmt.Errorf("%s unsupported in replay", e.Op)
+}
+
+const replayHelpers = `
+func govcArr(b []byte) []byte { return append([]byte{}, b...) }
+func govcAt(b []byte, i int64) int64 { if i < 0 || i >= int64(len(b)) { panic("govc: clause indexes out of range") }; return int64(b[i]) }
+func govcSub(b []byte, lo, hi int64) []byte { if hi < 0 { hi = int64(len(b)) }; if lo < 0 || lo > hi || hi > int64(len(b)) { panic("govc: clause slices out of range") }; return b[lo:hi] }
+func govcCat(a, b []byte) []byte { return append(append([]byte{}, a...), b...) }
+func govcUpd(b []byte, i, v int64) []byte { c := append([]byte{}, b...); if i >= 0 && i < int64(len(c)) { c[i] = byte(v) }; return c }
+func govcDiv(a, b int64) int64 { if b == 0 { panic("govc: division by zero in clause") }; q := a / b; if (a%b != 0) && ((a < 0) != (b < 0)) { q-- }; return q }
+func govcMod(a, b int64) int64 { if b == 0 { panic("govc: division by zero in clause") }; m := a % b; if m < 0 { if b > 0 { m += b } else { m -= b } }; return m }
+func govcIte[T any](c bool, a, b T) T { if c { return a }; return b }
+`
+
+// tryReplay: see the file comment. Returns (replayed, description).
+func (g *Gen) tryReplay(it oblItem, pid string, rep map[string]any) (bool, string) {
+	o, vc := it.o, it.vc
+	if g.replaysDone >= 4 {
+		return false, "no replay attempted: replay budget of this run used by earlier violations"
+	}
+	if vc == nil || vc.fn == nil {
+		return false, "no replay: not an obligation of a function body"
+	}
+	if o.Kind != "nopanic" && o.Clause == nil {
+		return false, "no replay driver for obligations of kind " + o.Kind
+	}
+	fn := vc.fn
+	for _, p := range vc.params {
+		if !isSimpleType(p.Ty, 0) {
+			return false, fmt.Sprintf("no replay: parameter %s has a type outside the replayable class (%s)", p.Name, p.Ty)
+		}
+	}
+	how := "model of the refuted obligation"
+	if o.Status != "refuted" || o.Aux == "" {
+		// No model (the quantified theory makes the solvers answer unknown). Search for a *candidate* input with a
+		// weakened, quantifier-free version of the query plus ground facts about the parameters; a candidate proves
+		// nothing by itself — only the run on the real code below decides.
+		file, solver, ok := g.candidateModel(vc, o)
+		if !ok {
+			return false, "no failing input found: the solvers gave no model and the quantifier-free candidate search found none"
+		}
+		o.Aux, o.Solver = file, solver
+		how = "candidate from a quantifier-free weakening of the query (confirmed only by the run below)"
+	}
+	rep["input_source"] = how
+	g.replaysDone++
+	if fn.Parent() != nil || fn.Signature.Recv() != nil || fn.Pkg == nil {
+		return false, "no replay: only package-level functions are replayed"
+	}
+	if strings.HasPrefix(o.Func, vc.topKey) && o.Func != vc.topKey {
+		return false, "no replay: obligation belongs to another function"
+	}
+	pkg := fn.Pkg.Pkg
+	qual := func(p *types.Package) string {
+		if p == pkg {
+			return ""
+		}
+		return p.Name()
+	}
+	imports := map[string]string{}
+	var collect func(t types.Type)
+	collect = func(t types.Type) {
+		switch u := types.Unalias(t).(type) {
+		case *types.Named:
+			if p := u.Obj().Pkg(); p != nil && p != pkg {
+				imports[p.Path()] = p.Name()
+			}
+			if st, ok := u.Underlying().(*types.Struct); ok {
+				for i := 0; i < st.NumFields(); i++ {
+					collect(st.Field(i).Type())
+				}
+			}
+		}
+	}
+	var decls, argNames []string
+	ptypes := map[string]types.Type{}
+	inputs := map[string]string{}
+	for _, p := range vc.params {
+		collect(p.Ty)
+		lit, ok := g.goLiteral(o.Aux, o.Solver, p.V, p.Ty, qual)
+		if !ok {
+			return false, "no replay: the solver's model does not give concrete values for parameter " + p.Name
+		}
+		decls = append(decls, fmt.Sprintf("\tp_%s := %s", p.Name, lit))
+		argNames = append(argNames, "p_"+p.Name)
+		ptypes[p.Name] = p.Ty
+		inputs[p.Name] = lit
+	}
+	rep["inputs"] = inputs
+	res := fn.Signature.Results()
+	var rnames []string
+	for k := 0; k < res.Len(); k++ {
+		rnames = append(rnames, fmt.Sprintf("r%d", k))
+	}
+	oracle := ""
+	if o.Clause != nil && o.Kind != "nopanic" {
+		tr := &goTr{g: g, sig: fn.Signature, params: ptypes, pkg: pkg, vars: map[string]trVal{}}
+		v, err := tr.tr(o.Clause.Expr)
+		if err != nil || v.kind != "bool" {
+			return false, fmt.Sprintf("no replay: the clause cannot be evaluated on the real results (%v)", err)
+		}
+		oracle = fmt.Sprintf("\t\tif !(%s) {\n\t\t\tfmt.Println(\"GOVC-REPLAY-CLAUSE-VIOLATED\")\n\t\t}\n", v.code)
+	}
+	var src bytes.Buffer
+	fmt.Fprintf(&src, "package %s\n\nimport (\n\t\"bytes\"\n\t\"fmt\"\n\t\"testing\"\n", pkg.Name())
+	for path, name := range imports {
+		fmt.Fprintf(&src, "\t%s %q\n", name, path)
+	}
+	fmt.Fprintf(&src, ")\n\nvar _ = bytes.Equal\n%s\n", replayHelpers)
+	fmt.Fprintf(&src, "func TestGovcReplay(t *testing.T) {\n%s\n\tfunc() {\n\t\tdefer func() {\n\t\t\tif r := recover(); r != nil {\n\t\t\t\tfmt.Printf(\"GOVC-REPLAY-PANIC: %%v\\n\", r)\n\t\t\t}\n\t\t}()\n", strings.Join(decls, "\n"))
+	call := fmt.Sprintf("%s(%s)", fn.Name(), strings.Join(argNames, ", "))
+	if len(rnames) > 0 {
+		fmt.Fprintf(&src, "\t\t%s := %s\n", strings.Join(rnames, ", "), call)
+		for _, r := range rnames {
+			fmt.Fprintf(&src, "\t\t_ = %s\n", r)
+		}
+	} else {
+		fmt.Fprintf(&src, "\t\t%s\n", call)
+	}
+	fmt.Fprintf(&src, "\t\tfmt.Println(\"GOVC-REPLAY-RETURNED\")\n%s\t}()\n}\n", oracle)
+	rep["generated_test"] = src.String()
+
+	// inject with -overlay: nothing is written into the repository
+	pos := g.prog.Fset.Position(fn.Pos())
+	dir := filepath.Dir(pos.Filename)
+	work, err := os.MkdirTemp("", "govc-replay.")
+	if err != nil {
+		return false, "no replay: " + err.Error()
+	}
+	defer os.RemoveAll(work)
+	tf := filepath.Join(work, "zz_govc_replay_test.go")
+	os.WriteFile(tf, src.Bytes(), 0o644)
+	ov, _ := json.Marshal(map[string]any{"Replace": map[string]string{filepath.Join(dir, "zz_govc_replay_test.go"): tf}})
+	ovf := filepath.Join(work, "overlay.json")
+	os.WriteFile(ovf, ov, 0o644)
+	ctx, cancel := context.WithTimeout(context.Background(), 240*time.Second)
+	defer cancel()
+	cmd := exec.CommandContext(ctx, "go", "test", "-overlay", ovf, "-vet=off", "-count=1", "-timeout", "60s", "-run", "^TestGovcReplay$", "-v", ".")
+	cmd.Dir = dir
+	cmd.Env = append(os.Environ(), "GOFLAGS=-mod=readonly", "GOPROXY=off", "GOSUMDB=off", "GOTOOLCHAIN=local")
+	tc := os.Getenv("GOVC_REPO_GO")
+	if tc == "" {
+		if _, err := os.Stat("/opt/veriftools/go1.26.8/bin/go"); err == nil {
+			tc = "/opt/veriftools/go1.26.8/bin" // a toolchain new enough for the repository's go.mod, used with GOTOOLCHAIN=local
+		}
+	}
+	if tc != "" {
+		cmd.Env = append(cmd.Env, "PATH="+tc+":"+os.Getenv("PATH"))
+		cmd.Path = filepath.Join(tc, "go")
+	}
+	outb, _ := cmd.CombinedOutput()
+	out := string(outb)
+	rep["test_output"] = truncate(out, 4000)
+	switch {
+	case o.Kind == "nopanic" && strings.Contains(out, "GOVC-REPLAY-PANIC"):
+		return true, "replayed: the real function panics on the model's input"
+	case o.Kind != "nopanic" && strings.Contains(out, "GOVC-REPLAY-CLAUSE-VIOLATED"):
+		return true, "replayed: the real function's result violates the clause on the model's input"
+	case strings.Contains(out, "GOVC-REPLAY-RETURNED") || strings.Contains(out, "GOVC-REPLAY-PANIC"):
+		return false, "the model's input does not show the failure on the real code (model over abstracted values, or a contract weaker than the code)"
+	}
+	return false, "replay test could not be run: " + truncate(out, 300)
+}
+
+// candidateModel: satisfiable quantifier-free weakening of an obligation's query, with ground facts for the parameters.
+func (g *Gen) candidateModel(vc *VC, o *Obligation) (string, string, bool) {
+	q := queryText(vc, o)
+	// for the search only, byte strings are concrete (length, array) pairs so that reads, slices and concatenations of
+	// the parameters constrain the parameters' bytes (z3 array lambdas); the proof queries never use this
+	q = strings.Replace(q, abstractStrDecls, concreteStrDecls, 1)
+	var b strings.Builder
+	lines := strings.Split(q, "\n")
+	tail := ""
+	for _, l := range lines {
+		t := strings.TrimSpace(l)
+		if strings.Contains(t, "(forall") || strings.Contains(t, "(exists") {
+			continue
+		}
+		if t == "(check-sat)" {
+			tail = t
+			continue
+		}
+		b.WriteString(l)
+		b.WriteByte('\n')
+	}
+	var ground func(v Val, t types.Type, depth int)
+	ground = func(v Val, t types.Type, depth int) {
+		if depth > 3 {
+			return
+		}
+		switch u := types.Unalias(t).Underlying().(type) {
+		case *types.Basic:
+			if u.Info()&types.IsString != 0 {
+				fmt.Fprintf(&b, "(assert (and (<= 0 (slen %s)) (<= (slen %s) 96)))\n", v.T, v.T)
+				for i := 0; i < 96; i++ {
+					fmt.Fprintf(&b, "(assert (and (<= 0 (at %s %d)) (<= (at %s %d) 255)))\n", v.T, i, v.T, i)
+				}
+			}
+		case *types.Slice, *types.Array:
+			fmt.Fprintf(&b, "(assert (and (<= 0 (slen %s)) (<= (slen %s) 96)))\n", v.T, v.T)
+			for i := 0; i < 96; i++ {
+				fmt.Fprintf(&b, "(assert (and (<= 0 (at %s %d)) (<= (at %s %d) 255)))\n", v.T, i, v.T, i)
+			}
+		case *types.Struct:
+			key := g.structKey(t)
+			for i := 0; i < u.NumFields(); i++ {
+				f := u.Field(i)
+				ground(Val{T: fmt.Sprintf("(%s %s)", g.fieldSel(key, f.Name(), i), v.T), S: g.sortOf(f.Type()), Ty: f.Type()}, f.Type(), depth+1)
+			}
+		}
+	}
+	for _, p := range vc.params {
+		ground(p.V, p.Ty, 0)
+	}
+	b.WriteString(tail + "\n")
+	dir := os.TempDir()
+	if o.Aux != "" {
+		dir = filepath.Dir(o.Aux)
+	}
+	f, err := os.CreateTemp(dir, "cand*.smt2")
+	if err != nil {
+		return "", "", false
+	}
+	f.WriteString(b.String())
+	f.Close()
+	for _, sp := range solvers[:2] {
+		r := runOne(context.Background(), sp, f.Name(), 8)
+		if r.answer == "sat" {
+			return f.Name(), sp.name, true
+		}
+		if os.Getenv("GOVC_DEBUG") != "" {
+			fmt.Fprintf(os.Stderr, "candidate search %s %s: %s %s\n", o.Name, sp.name, r.answer, truncate(r.out, 300))
+		}
+	}
+	if os.Getenv("GOVC_KEEP") == "" {
+		os.Remove(f.Name())
+	} else {
+		fmt.Fprintf(os.Stderr, "candidate query kept: %s\n", f.Name())
+	}
+	return "", "", false
+}
+
+const abstractStrDecls = `(declare-sort Str 0)
+(declare-fun slen (Str) Int)
+(declare-fun at (Str Int) Int)
+(declare-fun cat (Str Str) Str)
+(declare-fun sub (Str Int Int) Str)
+(declare-fun zeros (Int) Str)
+(declare-fun supd (Str Int Int) Str)
+(declare-fun byte1 (Int) Str)
+(declare-fun litid (Str) Int)
+(declare-const empty$ Str)
+`
+
+const concreteStrDecls = `(define-sort Str () (Seq Int))
+(define-fun slen ((s Str)) Int (seq.len s))
+(define-fun at ((s Str) (i Int)) Int (seq.nth s i))
+(define-fun cat ((a Str) (b Str)) Str (seq.++ a b))
+(define-fun sub ((s Str) (lo Int) (hi Int)) Str (seq.extract s lo (- hi lo)))
+(declare-fun zeros (Int) Str)
+(define-fun supd ((s Str) (i Int) (v Int)) Str (seq.++ (seq.extract s 0 i) (seq.unit v) (seq.extract s (+ i 1) (- (seq.len s) (+ i 1)))))
+(define-fun byte1 ((v Int)) Str (seq.unit (mod v 256)))
+(declare-fun litid (Str) Int)
+(define-fun empty$ () Str (as seq.empty Str))
+`
+
+var _ = ssa.Value(nil)
